@@ -6,9 +6,10 @@
 # (blocks at a seam, is pre-empted at a traced line, or finishes).  Which thread gets the
 # baton is decided by the Policy (seeded or replayed), never by the OS.
 #
-# Nothing in here reads a real clock or draws from a global PRNG.
+# Nothing in here reads a real clock or draws from a global PRNG (except the hang watchdog).
 
 import heapq
+import os
 import sys
 import threading as _real_threading
 import traceback
@@ -22,6 +23,14 @@ NS = 1_000_000_000
 _THREAD_START = _real_threading.Thread.start
 _THREAD_JOIN = _real_threading.Thread.join
 _THREAD_IS_ALIVE = _real_threading.Thread.is_alive
+
+
+# Watchdog for endless loops in the code under test (the only place where wall time matters:
+# a run that would never end has no replayable history anyway; steps normally take < 10 ms)
+HANG_WALL_S = float(os.environ.get("VERIF_HANG_S", "20"))
+
+
+MAX_HISTORY = 3_000_000
 
 
 class SimAbort(BaseException):
@@ -159,11 +168,21 @@ class Sim:
 		self.faults = None  # seams.FaultScript
 		self.clock_offset = 0  # what monotonic_ns() reads at virtual time 0
 		self.lock_contention = 0
+		self.hung = False
 
 	# ---- history -------------------------------------------------------------------
 	def record(self, kind, **kw):
 		ev = (self.now, kind, kw)
 		self.history.append(ev)
+		if len(self.history) > MAX_HISTORY and self.current is not None and not self.hung:
+			# a simulated thread that produces events without end (sends in a loop, say) never
+			# trips the wall-clock watchdog's "no seam reached" test but would eat all memory
+			self.hung = True
+			t = self.current
+			self.history.append((self.now, "thread-death", {"thread": t.name, "exc": "Hang",
+				"msg": "more than %d recorded events in one run (endless loop producing events)" % MAX_HISTORY,
+				"where": []}))
+			raise SimAbort()
 		if self.record_hook is not None:
 			self.record_hook(ev)
 
@@ -239,6 +258,8 @@ class Sim:
 				fn()
 			if self.events_run > self.max_events:
 				raise HarnessError("event budget exceeded")
+			if self.hung:
+				break
 			runnable = [t for t in self.threads if t.state == SimThread.RUNNABLE]
 			if runnable:
 				if len(runnable) > 1:
@@ -262,10 +283,33 @@ class Sim:
 		self.current = t
 		self.switches += 1
 		t.sem.release()
-		self.driver_sem.acquire()
+		if not self.driver_sem.acquire(timeout=HANG_WALL_S):
+			self._hung(t)
 		self.current = None
 		if t.death is not None and t.death not in self.deaths:
 			self.deaths.append(t.death)
+
+	def _hung(self, t):
+		"""The running simulated thread has not come back to any seam for HANG_WALL_S seconds of
+		wall time (normal steps take micro- to milliseconds): a busy loop in the code under test.
+		It is reported like a thread death and the thread is unwound by an exception raised into
+		it; what cannot be unwound (a blocking call outside the simulation) is a harness error."""
+		where = []
+		try:
+			fr = sys._current_frames().get(t.real.ident)
+			for f in traceback.extract_stack(fr)[-6:]:
+				where.append("%s:%s" % (f.filename.rsplit("/", 1)[-1], f.name))
+		except Exception:
+			pass
+		import ctypes
+		ctypes.pythonapi.PyThreadState_SetAsyncExc(ctypes.c_ulong(t.real.ident), ctypes.py_object(SimAbort))
+		if not self.driver_sem.acquire(timeout=20):
+			raise HarnessError("simulated thread %s is stuck outside the simulation: %s" % (t.name, where))
+		t.death = {"type": "Hang", "msg": "no progress", "frames": where}
+		self.hung = True  # the run ends here: Sim.run() returns at once from now on
+		self.record("thread-death", thread=t.name, exc="Hang",
+			msg="busy for more than %g s of wall time without reaching a seam (endless loop)" % HANG_WALL_S,
+			where=where[-4:])
 
 	def others_runnable(self, t):
 		for o in self.threads:
